@@ -33,6 +33,14 @@ class ToolError(Exception):
     pass
 
 
+class LibraryPanic(Exception):
+    """The library under test panicked in a call the harness had not wrapped (harness exit code 3)."""
+
+    def __init__(self, sub, args, loc, msg):
+        Exception.__init__(self, "%s: %s" % (loc, msg))
+        self.sub, self.args_, self.loc, self.msg = sub, args, loc, msg
+
+
 def log(*a):
     print(*a, flush=True)
 
@@ -50,8 +58,9 @@ def _cargo_env():
     return e
 
 
-def build_harness(profile="release"):
-    """Rebuild the harness (and therefore fips204 with hooks on) from /repo's working tree."""
+def build_harness(profile="release", hooks=True):
+    """Rebuild the harness (and therefore fips204) from /repo's working tree.  hooks=False builds the API-level
+    part of the harness against the library WITHOUT the verif-hooks feature (separate target directory)."""
     os.makedirs(WORK, exist_ok=True)
     lock = open(os.path.join(WORK, ".cargo.lock"), "w")
     fcntl.flock(lock, fcntl.LOCK_EX)
@@ -59,17 +68,19 @@ def build_harness(profile="release"):
         if not os.path.exists(os.path.join(HARNESS, "Cargo.lock")):
             shutil.copy(os.path.join(REPO, "Cargo.lock"), os.path.join(HARNESS, "Cargo.lock"))
         cmd = ["cargo", "build", "--offline", "--profile", profile]
+        if not hooks:
+            cmd += ["--no-default-features", "--target-dir", "target-nohooks"]
         t0 = time.time()
         p = subprocess.run(cmd, cwd=HARNESS, env=_cargo_env(), stdout=subprocess.PIPE, stderr=subprocess.STDOUT, text=True)
         if p.returncode != 0:
             log(p.stdout[-4000:])
             raise ToolError("harness build failed (profile %s): the tree under /repo does not compile with hooks on" % profile)
-        log("harness build (%s): %.1fs" % (profile, time.time() - t0))
+        log("harness build (%s%s): %.1fs" % (profile, "" if hooks else ", library without verif-hooks", time.time() - t0))
     finally:
         fcntl.flock(lock, fcntl.LOCK_UN)
         lock.close()
     d = "release" if profile == "release" else profile
-    return os.path.join(HARNESS, "target", d)
+    return os.path.join(HARNESS, "target" if hooks else "target-nohooks", d)
 
 
 def drive(bindir, sub, timeout=3600, **kw):
@@ -77,6 +88,10 @@ def drive(bindir, sub, timeout=3600, **kw):
     library under test is caught inside the harness and reported as data)."""
     args = [os.path.join(bindir, "drive"), sub] + ["%s=%s" % (k, v) for k, v in kw.items()]
     p = subprocess.run(args, stdout=subprocess.PIPE, stderr=subprocess.PIPE, text=True, timeout=timeout)
+    if p.returncode == 3:
+        m = re.search(r"UNGUARDED-LIBRARY-PANIC (.*?) \| (.*)", p.stdout)
+        if m:
+            raise LibraryPanic(sub, kw, m.group(1), m.group(2))
     if p.returncode != 0:
         log(p.stdout[-3000:])
         log(p.stderr[-3000:])
